@@ -20,8 +20,9 @@ from . import locate
 from .ty import *      # noqa
 
 STR_POOL = ["b", "shell", "timeout", "", "a.py", "b/a.py", "a.py:3", "*a.py:3", "*.py", "b/**", "a.py:1", "x", ":", "3", "r1", "r2", "open", "*a.py:1",
-            "a.py:2", "/pyvc-none/t/a.py:3", "/pyvc-none/t/b/a.py:1", "b/a.py:1"]
+            "a.py:2", "/pyvc-none/t/a.py:3", "/pyvc-none/t/b/a.py:1", "b/a.py:1", "x = 1\n", "x = 1\r\n", "x = 1\r", "open(x)\n", " x \t\n"]
 PATH_POOL = [Path("/pyvc-none/t/a.py"), Path("/pyvc-none/t/b/a.py"), Path("/pyvc-none/t"), Path("a.py"), Path("b/a.py"), Path("/pyvc-none/t/c.py")]
+KEY_POOL = [Path("a.py"), Path("b/a.py"), Path("/pyvc-none/t/a.py"), Path("/pyvc-none/t/b/a.py")]     # relative + absolute, one a suffix of another
 INT_POOL = [1, 2, 3, 1, 2, 3, 0, 1, 2, 4, -1]
 
 
@@ -91,7 +92,7 @@ class Gen:
             elif "node" in h:
                 v = _node(r)
             elif hint == "":
-                v = r.choice(PATH_POOL[:3])      # anonymous opaque (dict keys ...): a tiny shared domain so that keys collide
+                v = r.choice(KEY_POOL)           # anonymous opaque (dict keys ...): a tiny shared domain so that keys collide
             else:
                 v = _Token(hint or "opaque", r.randrange(3))
             self.opaques.append(v)
@@ -107,6 +108,10 @@ class Gen:
         if insts and (depth > 6 or r.random() < 0.3):
             return r.choice(insts)
         cls = _instantiable(rec.pyclass)
+        # dynamic dispatch: a declared class stands for its live subclasses too (their overriding methods are what really runs)
+        subs = _live_subclasses(rec.pyclass)
+        if subs and r.random() < 0.5:
+            cls = r.choice(subs)
         try:
             import pydantic
             is_model = issubclass(cls, pydantic.BaseModel)
@@ -139,6 +144,36 @@ class Gen:
             except Exception:
                 pass
         return obj
+
+
+_SUBS = {}
+_LOADED = [False]
+
+
+def _live_subclasses(base):
+    """concrete subclasses of `base` defined in the two packages (every plugin module is imported once, through the registry)"""
+    if base in _SUBS:
+        return _SUBS[base]
+    if not _LOADED[0]:
+        _LOADED[0] = True
+        try:
+            from codemodder.registry import load_registered_codemods
+            load_registered_codemods()
+        except Exception:      # noqa
+            pass
+    out, todo, seen = [], list(base.__subclasses__()), set()
+    while todo:
+        k = todo.pop()
+        if k in seen:
+            continue
+        seen.add(k)
+        todo.extend(k.__subclasses__())
+        if getattr(k, "__module__", "").startswith(("codemodder", "core_codemods")) and not getattr(k, "__abstractmethods__", None) \
+                and "test" not in k.__module__:
+            out.append(k)
+    out.sort(key=lambda k: (k.__module__, k.__qualname__))
+    _SUBS[base] = out
+    return out
 
 
 class _Token:
